@@ -12,6 +12,30 @@ EXTRACT = 'rule_translate.ExtractRuleStructure'
 DISAMB = 'rule_translate.DisambiguateCombineVariables'
 
 
+def combine_disambiguation_total(chk, rid):
+  """the disambiguation reaches every combine of the rule: no path leaves
+  DisambiguateCombineVariables before the loop that renames the variables of
+  each sub-combine (a rule with a single combine can still be merged with
+  another one by injection)."""
+  repo = chk.repo
+  dcv = FnView(repo, 'rule_translate.DisambiguateCombineVariables')
+  worker = repo.func('rule_translate.DisambiguateCombineVariables.Replace')
+  wcalls = [n for n, c in dcv.all_calls() if worker.fq in repo.resolve(dcv.fi, c) or
+            call_tail(c) == worker.name]
+  heads = set()
+  for n in wcalls:
+    for h, pol in dcv.cfg.header_of(n):
+      if isinstance(dcv.cfg.stmt[h], ast.For):
+        heads.add(h)
+  if not heads:
+    raise AnalysisError('DisambiguateCombineVariables: loop over the sub-combines not found')
+  chk.ob(rid, dcv.cfg.must_pass_before(dcv.cfg.exit, heads), None,
+         'DisambiguateCombineVariables renames the variables of every combine (no early exit)',
+         'a path returns before the combines are visited: variables of that '
+         'combine keep their names and collide with equally named variables '
+         'of another combine once rules are injected into each other', fi=dcv.fi)
+
+
 def run(chk):
   repo = chk.repo
   chk.rule('C02-R1', 'variables local to different combines are kept apart: '
@@ -47,6 +71,8 @@ def run(chk):
     copied = any(isinstance(s, ast.Call) and call_tail(s) == 'deepcopy' for s in src)
     chk.ob('C02-R1', ok and copied, None, 'disambiguation renames inside the private copy',
            'variables are renamed inside the rule object of the program', fi=v.fi, node=c)
+
+  combine_disambiguation_total(chk, 'C02-R1')
 
   chk.rule('C02-R2', 'a combine is compiled as a correlated sub-query: the '
            'outer vocabulary and is_combine=True reach TranslateRule / '
